@@ -78,8 +78,8 @@ Proof.
 Qed.
 
 (** * The property as a boolean predicate, and its bounded (enumerated) proof.
-    The unbounded functional theorem (output = the frame-wise interleaving of the sources,
-    any number of streams/lengths/block sizes) is not proved yet; see DESIGN.md. *)
+    The unbounded functional theorems (output = the frame-wise interleaving of the sources,
+    any number of streams/lengths/block sizes) are in TranscodeUnbounded.v. *)
 Definition whole_frames (s : src) : Z := zlen (sbytes s) / frame_size s.
 Definition src_sample (s : src) (f c : Z) : list Z :=
   le_sample s (slice (sbytes s) ((f * schans s + c) * swidth s) ((f * schans s + c + 1) * swidth s)).
